@@ -18,7 +18,7 @@ from pvm.gen import mdg as gm
 from pvm.gen import c26_nonmatching as nm
 
 PROP = "C27"
-N = {"quick": 70, "thorough": 6000}
+N = {"quick": 70, "thorough": 4000}
 WORKERS = {"quick": 4, "thorough": 16}
 TIMEOUT = {"quick": 300, "thorough": 1800}
 CASE_TIMEOUT = 90.0
@@ -57,7 +57,7 @@ ASSUMPTIONS = [
 LEVEL_TEXT = ("Every projection matrix returned for a random list/order/dimension is compared "
               "exactly with a dense reference built from grid sizes and list order.")
 TECHNIQUE = "runtime monitoring: dense reference matrices from sizes and list order"
-TOL = 1e-13
+TOL = 1e-10
 
 
 # ----------------------------------------------------------------------- references
